@@ -16,13 +16,13 @@
 (*      Clause(): a value of a documented signature or a werkzeug HTTP exception with a 4xx  *)
 (*      code; anything else is named NoUnrelatedException / DocumentedType / Terminates.     *)
 (* Text is a sequence of code points.  Nothing here is transcribed from the implementation.  *)
-EXTENDS Naturals, Sequences, FiniteSets, TLC, Bytes, HostileBody
+EXTENDS Naturals, Sequences, FiniteSets, TLC, Bytes, HostileBody, HostileExt
 
 (* ---- (a) domain ------------------------------------------------------------------------- *)
 DomainChars == (32..126) \cup (128..255)
 InDomain(s) == \A i \in 1..Len(s) : s[i] \in DomainChars
 
-Families == <<"options", "ctype", "cond", "auth", "cookie", "url", "range", "date", "body", "accept">>
+Families == <<"options", "ctype", "cond", "auth", "cookie", "url", "range", "date", "body", "accept", "ext">>
 
 Tok_options == <<
   <<97>>,   \*  1  a
@@ -382,11 +382,11 @@ Ctx_accept == <<
 Toks(fam) == CASE fam = "options" -> Tok_options [] fam = "ctype" -> Tok_ctype [] fam = "cond" -> Tok_cond
                [] fam = "auth" -> Tok_auth [] fam = "cookie" -> Tok_cookie [] fam = "url" -> Tok_url
                [] fam = "range" -> Tok_range [] fam = "date" -> Tok_date [] fam = "body" -> Tok_body
-               [] fam = "accept" -> Tok_accept
+               [] fam = "accept" -> Tok_accept [] fam = "ext" -> Tok_ext
 Ctxs(fam) == CASE fam = "options" -> Ctx_options [] fam = "ctype" -> Ctx_ctype [] fam = "cond" -> Ctx_cond
                [] fam = "auth" -> Ctx_auth [] fam = "cookie" -> Ctx_cookie [] fam = "url" -> Ctx_url
                [] fam = "range" -> Ctx_range [] fam = "date" -> Ctx_date [] fam = "body" -> Ctx_body
-               [] fam = "accept" -> Ctx_accept
+               [] fam = "accept" -> Ctx_accept [] fam = "ext" -> Ctx_ext
 
 \* text of a sequence of token indices
 RECURSIVE TextOf(_, _)
@@ -459,6 +459,7 @@ AcceptTexts == AccLists(AccElems(AccLangTags, AccLangQ)) \cup AccLists(AccElems(
 GramTexts(fam) == CASE fam = "range" -> RangeTexts \cup ContentRangeTexts
                     [] fam = "date" -> DateTexts
                     [] fam = "accept" -> AcceptTexts
+                    [] fam = "ext" -> ExtTexts             \* HostileExt: RFC 2231 / 8187 extended parameters
                     [] fam = "body" -> BodyCTypeTexts      \* HostileBody: CONTENT_TYPE grammar of the body family
                     [] OTHER -> {}
 
@@ -476,6 +477,7 @@ FamFns(fam) ==
     [] fam = "range"   -> <<"parse_range_header", "parse_content_range_header", "parse_if_range_header", "parse_age">>
     [] fam = "date"    -> <<"parse_date", "parse_if_range_header">>
     [] fam = "body"    -> <<"parse_options_header">>
+    [] fam = "ext"     -> <<"parse_options_header", "parse_dict_header", "parse_accept_header", "parse_accept_header[MIMEAccept]">>
     [] fam = "accept"  -> <<"parse_accept_header", "parse_accept_header[MIMEAccept]", "parse_accept_header[LanguageAccept]",
                             "parse_accept_header[CharsetAccept]">>
 FamSlots(fam) ==
@@ -491,6 +493,8 @@ FamSlots(fam) ==
     [] fam = "range"   -> <<"RANGE", "IF_RANGE", "CONTENT_LENGTH", "MAX_FORWARDS">>
     [] fam = "date"    -> <<"IF_MODIFIED_SINCE", "IF_UNMODIFIED_SINCE", "IF_RANGE", "DATE">>
     [] fam = "accept"  -> <<"ACCEPT", "ACCEPT_CHARSET", "ACCEPT_ENCODING", "ACCEPT_LANGUAGE">>
+    \* ext: also the header values of a multipart part, function "RequestPart" (see PartSlots)
+    [] fam = "ext"     -> <<"CONTENT_TYPE_URL", "CONTENT_TYPE_MP", "ACCEPT", "ACCEPT_LANGUAGE">>
     [] fam = "body"    -> <<>>   \* the body family's texts are the CONTENT_TYPE of function "RequestBody" (see BodySlots)
 Slots == {"HOST", "COOKIE", "AUTHORIZATION", "ACCEPT", "ACCEPT_CHARSET", "ACCEPT_ENCODING", "ACCEPT_LANGUAGE", "CACHE_CONTROL",
           "PRAGMA", "IF_MATCH", "IF_NONE_MATCH", "IF_MODIFIED_SINCE", "IF_UNMODIFIED_SINCE", "IF_RANGE", "RANGE", "DATE",
@@ -600,6 +604,17 @@ RequestBodyPositions ==
      C("files.read", FALSE, {"list"}, {"bytes"}), C("files.names", FALSE, {"list"}, OptStr),
      C("files.mimetype_params", FALSE, {"list"}, {"dict[]", "dict[str:str]"}), C("files.content_length", FALSE, {"list"}, {"int"}) >>
 
+(* Function "RequestPart": a multipart/form-data request with one part whose Content-Disposition (slot DISPOSITION)  *)
+(* or Content-Type (slot PART_TYPE, a file part) header value is the hostile text.  form / files / values are the     *)
+(* Request attributes (silent parser: a malformed part gives empty multi dicts); the FileStorage attributes that      *)
+(* parse the part's Content-Type lazily are recorded but are not Request attributes (never a verdict).                *)
+PartSlots == {"DISPOSITION", "PART_TYPE"}
+RequestPartPositions ==
+  << V("call", TRUE, {"Request"}), C("files", TRUE, {"ImmutableMultiDict"}, {"str:FileStorage"}),
+     C("form", TRUE, {"ImmutableMultiDict"}, BodyMap), C("values", TRUE, {"CombinedMultiDict"}, BodyMap),
+     C("files.names", FALSE, {"list"}, OptStr), C("files.mimetype_params", FALSE, {"list"}, {"dict[]", "dict[str:str]"}),
+     C("files.headers", FALSE, {"list"}, {"tuple[str,str]"}) >>
+
 BodySlots == {Bodies[i][1] \o "|" \o CLNames[j] : i \in 1..Len(Bodies), j \in 1..Len(CLNames)}
 
 Table ==
@@ -655,7 +670,8 @@ Table ==
   "unquote_etag" :> << V("call", TRUE, {"tuple[str,bool]", "tuple[NoneType,NoneType]"}) >> @@
   "unquote_header_value" :> << V("call", TRUE, {"str"}) >> @@
   "Request" :> RequestPositions @@
-  "RequestBody" :> RequestBodyPositions
+  "RequestBody" :> RequestBodyPositions @@
+  "RequestPart" :> RequestPartPositions
 
 Fns == DOMAIN Table
 
@@ -672,9 +688,9 @@ Clause(fn, w, kd, ty, kd1, ty1) ==
 
 TableWellFormed ==
   /\ \A fn \in Fns : Len(Table[fn]) >= 1 /\ Table[fn][1].n = "call" /\ Table[fn][1].core
-  /\ \A i \in 1..Len(Families) : /\ \A k \in 1..Len(FamFns(Families[i])) : FamFns(Families[i])[k] \in Fns \ {"Request", "RequestBody"}
+  /\ \A i \in 1..Len(Families) : /\ \A k \in 1..Len(FamFns(Families[i])) : FamFns(Families[i])[k] \in Fns \ {"Request", "RequestBody", "RequestPart"}
                                  /\ \A k \in 1..Len(FamSlots(Families[i])) : FamSlots(Families[i])[k] \in Slots
-  /\ \A fn \in Fns \ {"Request", "RequestBody"} : \E i \in 1..Len(Families) : \E k \in 1..Len(FamFns(Families[i])) : FamFns(Families[i])[k] = fn
+  /\ \A fn \in Fns \ {"Request", "RequestBody", "RequestPart"} : \E i \in 1..Len(Families) : \E k \in 1..Len(FamFns(Families[i])) : FamFns(Families[i])[k] = fn
   /\ \A sl \in Slots : \E i \in 1..Len(Families) : \E k \in 1..Len(FamSlots(Families[i])) : FamSlots(Families[i])[k] = sl
   /\ \A i \in 1..Len(Families) : /\ \A k \in 1..Len(Toks(Families[i])) : Toks(Families[i])[k] # <<>> /\ InDomain(Toks(Families[i])[k])
                                  /\ \A k \in 1..Len(Ctxs(Families[i])) : InDomain(Ctxs(Families[i])[k][1] \o Ctxs(Families[i])[k][2])
